@@ -412,3 +412,262 @@ Qed.
 (* the filtered context is the context of the same node in the forest's kind-filtered sibling list *)
 Theorem fctx_is_filter c : c_sibs (fctx c) = filter (fun t => same_kind t (c_self c)) (c_sibs c) /\ c_self (fctx c) = c_self c.
 Proof. split; reflexivity. Qed.
+
+(* ------------------------------------------------------------------ *)
+(* C10: the plain queries agree with the shape                          *)
+(* ------------------------------------------------------------------ *)
+
+(* the ancestor list is a real path: self is a child of the nearest
+   ancestor, every ancestor is a child of the next one, the last one is a
+   top-level node *)
+Inductive is_path (f : forest) : rt -> list rt -> Prop :=
+| path_top t : In t f -> is_path f t []
+| path_child t p anc : In t (rch p) -> is_path f p anc -> is_path f t (p :: anc).
+
+Lemma chain_is_path f anc sibs : chain f anc sibs -> forall t, In t sibs -> is_path f t anc.
+Proof.
+  induction 1 as [|p anc sibs Hc IH Hp]; intros t Ht; [now constructor|].
+  constructor; [assumption|]. now apply IH.
+Qed.
+
+Theorem ctx_path f c : ctx_ok f c -> is_path f (c_self c) (c_anc c).
+Proof. intros [Hc Hs]. eapply chain_is_path; eauto. Qed.
+
+Theorem ctx_sibs f c : ctx_ok f c ->
+  c_sibs c = match c_anc c with [] => f | p :: _ => rch p end.
+Proof. intros [Hc _]. now destruct Hc. Qed.
+
+(* parent / children / siblings *)
+Theorem parent_child f c : ctx_ok f c ->
+  match q_parent c with
+  | Some p => In (c_self c) (rch p) /\ q_siblings c true = rch p
+  | None => In (c_self c) f /\ q_siblings c true = f /\ q_is_top c = true
+  end.
+Proof.
+  intros Hok. pose proof (ctx_sibs f c Hok) as Hs. destruct Hok as [Hc Hin].
+  unfold q_parent, q_siblings, q_is_top. destruct (c_anc c) as [|p anc]; cbn [hd_error].
+  - rewrite Hs in Hin. auto.
+  - rewrite Hs in Hin. auto.
+Qed.
+
+Theorem depth_parent_list c a b :
+  q_depth c = S (length (q_parent_list c false b)) /\
+  length (q_parent_list c true b) = q_depth c /\
+  (q_is_top c = true <-> q_depth c = 1) /\
+  (q_is_top c = true <-> q_parent c = None) /\
+  q_parent_list c a true = rev (q_parent_list c a false).
+Proof.
+  unfold q_depth, q_parent_list, q_is_top, q_parent.
+  refine (conj _ (conj _ (conj _ (conj _ _)))).
+  - destruct b; [reflexivity|now rewrite rev_length].
+  - destruct b; [reflexivity|now rewrite rev_length].
+  - destruct (c_anc c); cbn; split; intros; try reflexivity; try discriminate; lia.
+  - destruct (c_anc c); cbn; split; intros; try reflexivity; try discriminate.
+  - destruct a; now rewrite rev_involutive.
+Qed.
+
+Theorem top_is_last_ancestor f c : ctx_ok f c -> In (q_top c) f /\
+  (q_top c = c_self c \/ In (q_top c) (c_anc c)).
+Proof.
+  intros Hok. pose proof (ctx_path f c Hok) as Hp. unfold q_top, last_error.
+  revert Hp. generalize (c_self c). induction (c_anc c) as [|p anc IH]; intros t Hp.
+  - cbn. inversion Hp; subst. auto.
+  - inversion Hp as [|? ? ? Ht Hp']; subst. cbn [rev].
+    destruct (IH p Hp') as [Hin Hor].
+    destruct (hd_error (rev anc)) as [z|] eqn:E.
+    + assert (hd_error (rev anc ++ [p]) = Some z) as -> by (destruct (rev anc); [discriminate|exact E]).
+      split; [assumption|]. right. destruct Hor as [->|Hor]; [now left|now right].
+    + apply hd_error_rev_nil in E. subst anc. cbn. split; [assumption|]. right. now left.
+Qed.
+
+(* up(k) walks the same path; up(depth) is the system root; beyond is an error *)
+Theorem up_spec c k :
+  q_up c 0 = None /\
+  (k < length (c_anc c) -> q_up c (S k) = option_map Some (nth_error (c_anc c) k)) /\
+  q_up c (q_depth c) = Some None /\
+  (q_depth c < k -> q_up c k = None).
+Proof.
+  unfold q_up, q_depth. refine (conj _ (conj _ (conj _ _))).
+  - reflexivity.
+  - intros Hk. destruct (nth_error (c_anc c) k) eqn:E; [reflexivity|].
+    apply nth_error_None in E. lia.
+  - assert (nth_error (c_anc c) (length (c_anc c)) = None) as -> by (apply nth_error_None; lia).
+    now rewrite Nat.eqb_refl.
+  - intros Hk. destruct k as [|k]; [lia|].
+    assert (nth_error (c_anc c) k = None) as -> by (apply nth_error_None; lia).
+    destruct (Nat.eqb k (length (c_anc c))) eqn:E; [apply Nat.eqb_eq in E; lia|reflexivity].
+Qed.
+
+(* every ancestor contains the node in its branch *)
+Lemma path_in_branch f : forall anc t, is_path f t anc -> forall a, In a anc -> In t (pre_f (rch a)).
+Proof.
+  induction anc as [|p anc IH]; intros t Hp a Ha; [contradiction|].
+  inversion Hp as [|? ? ? Ht Hp']; subst. destruct Ha as [<-|Ha].
+  - now apply in_pre_f_top.
+  - eapply pre_f_child_closed; [|eassumption]. now apply IH.
+Qed.
+
+Theorem descendant_sound f c o : ctx_ok f c -> q_is_descendant_of c o = true ->
+  exists a, In a (c_anc c) /\ rid a = o /\ In (c_self c) (pre_f (rch a)).
+Proof.
+  intros Hok H. unfold q_is_descendant_of in H. apply existsb_exists in H as (a & Ha & E).
+  exists a. split; [assumption|]. split; [unfold is_self in E; now apply Nat.eqb_eq|].
+  eapply path_in_branch; [apply ctx_path; eassumption|assumption].
+Qed.
+
+Theorem descendant_iff_ancestor c o :
+  q_is_descendant_of c (rid (c_self o)) = q_is_ancestor_of c (rid (c_self o)) /\
+  (q_is_descendant_of c (rid (c_self o)) = true <-> In (rid (c_self o)) (map rid (c_anc c))).
+Proof.
+  split; [reflexivity|]. unfold q_is_descendant_of. rewrite existsb_exists. split.
+  - intros (a & Ha & E). apply Nat.eqb_eq in E. rewrite <- E. now apply in_map.
+  - intros H. apply in_map_iff in H as (a & E & Ha). exists a. split; [assumption|]. unfold is_self. now apply Nat.eqb_eq.
+Qed.
+
+(* a node is never its own ancestor (needs unique identities) *)
+Lemma branch_ids_not_self f p : NoDup (ids f) -> In p (pre_f f) -> ~ In (rid p) (ids (rch p)).
+Proof.
+  intros H Hp. pose proof (NoDup_ids_sub f p H Hp) as Hs. rewrite ids_t_unfold in Hs. now inversion Hs.
+Qed.
+
+Theorem not_own_ancestor f c : NoDup (ids f) -> ctx_ok f c ->
+  q_is_descendant_of c (rid (c_self c)) = false.
+Proof.
+  intros H Hok. destruct (q_is_descendant_of c (rid (c_self c))) eqn:E; [exfalso|reflexivity].
+  destruct (descendant_sound f c _ Hok E) as (a & Ha & Hid & Hin).
+  assert (Hap : In a (pre_f f)) by (destruct Hok as [Hc _]; eapply chain_anc_in_pre; eauto).
+  apply (branch_ids_not_self f a H Hap). rewrite Hid. unfold ids. now apply in_map.
+Qed.
+
+(* siblings: index, previous and next are positions in the parent's list, by identity *)
+Theorem sibling_positions c l1 l2 :
+  c_sibs c = l1 ++ c_self c :: l2 ->
+  (forall x, In x l1 -> rid x <> rid (c_self c)) ->
+  (forall x, In x l2 -> rid x <> rid (c_self c)) ->
+  q_index c = Some (length l1) /\
+  q_prev c = last_error l1 /\
+  q_next c = hd_error l2 /\
+  q_first_sibling c = hd_error (l1 ++ [c_self c]) /\
+  q_last_sibling c = last_error (c_self c :: l2) /\
+  (q_is_first c = true <-> l1 = []) /\
+  (q_is_last c = true <-> l2 = []) /\
+  q_siblings c false = l1 ++ l2.
+Proof.
+  intros E H1 H2. refine (conj _ (conj _ (conj _ (conj _ (conj _ (conj _ (conj _ _))))))).
+  - unfold q_index. rewrite E. now apply index_of_split.
+  - now apply (q_prev_split c l1 l2).
+  - now apply (q_next_split c l1 l2).
+  - unfold q_first_sibling. rewrite E. now destruct l1.
+  - unfold q_last_sibling, last_error. rewrite E, rev_app_distr. cbn [rev]. rewrite <- app_assoc. cbn [app].
+    destruct (rev l2); reflexivity.
+  - unfold q_is_first. rewrite E. destruct l1 as [|y l1]; cbn [app hd_error]; unfold is_self.
+    + rewrite Nat.eqb_refl. split; reflexivity.
+    + destruct (Nat.eqb (rid y) (rid (c_self c))) eqn:Ey.
+      * apply Nat.eqb_eq in Ey. exfalso. eapply H1; [now left|exact Ey].
+      * split; discriminate.
+  - unfold q_is_last, last_error. rewrite E, rev_app_distr. cbn [rev]. rewrite <- app_assoc. cbn [app].
+    destruct l2 as [|y l2] using rev_ind.
+    + cbn. unfold is_self. rewrite Nat.eqb_refl. split; reflexivity.
+    + clear IHl2. rewrite rev_app_distr. cbn [rev app hd_error]. unfold is_self.
+      destruct (Nat.eqb (rid y) (rid (c_self c))) eqn:Ey.
+      * apply Nat.eqb_eq in Ey. exfalso. eapply H2; [|exact Ey]. apply in_or_app. right. now left.
+      * split; [discriminate|]. intros Hn. destruct l2; discriminate Hn.
+  - unfold q_siblings. rewrite E, filter_app. cbn [filter]. unfold is_self at 2. rewrite Nat.eqb_refl. cbn [negb].
+    f_equal; apply filter_all_true; intros x Hx; unfold is_self;
+      destruct (Nat.eqb (rid x) (rid (c_self c))) eqn:Ex; try reflexivity;
+      apply Nat.eqb_eq in Ex; exfalso; [eapply H1|eapply H2]; eauto.
+Qed.
+
+(* counts and height *)
+Theorem count_descendants_size c :
+  q_count_desc c false = size (c_self c) - 1 /\
+  q_count_desc c true = length (filter (fun t => match rch t with [] => true | _ => false end) (pre_f (rch (c_self c)))) /\
+  (q_is_leaf c = true <-> q_count_desc c false = 0) /\
+  q_has_children c = negb (q_is_leaf c).
+Proof.
+  unfold q_count_desc, q_is_leaf, q_has_children. refine (conj _ (conj _ (conj _ _))); try reflexivity.
+  - rewrite filter_true. rewrite <- size_pre, pre_unfold. cbn [length]. lia.
+  - rewrite filter_true. destruct (rch (c_self c)) as [|x ch] eqn:E; cbn; [split; reflexivity|].
+    split; [discriminate|]. destruct x. cbn. discriminate.
+Qed.
+
+Lemma list_max_ge l x : In x l -> x <= list_max l.
+Proof.
+  intros H. pose proof (proj1 (list_max_le l (list_max l)) (le_n _)) as F.
+  rewrite Forall_forall in F. now apply F.
+Qed.
+
+Theorem height_spec t :
+  (rch t = [] -> height t = 0) /\
+  (forall x, In x (rch t) -> height x < height t) /\
+  (rch t <> [] -> exists x, In x (rch t) /\ height t = S (height x)).
+Proof.
+  destruct t as [id i ch]. cbn [rch]. refine (conj _ (conj _ _)).
+  - intros ->. reflexivity.
+  - intros x Hx. cbn [height]. destruct ch as [|y ch]; [contradiction|].
+    assert (height x <= list_max (map height (y :: ch))) by (apply list_max_ge; now apply in_map). lia.
+  - intros Hne. cbn [height]. destruct ch as [|y ch]; [congruence|].
+    assert (G : forall l, l <> [] -> exists x, In x l /\ list_max (map height l) = height x).
+    { induction l as [|z l IH]; [congruence|]. intros _. destruct l as [|z' l].
+      - exists z. split; [now left|]. cbn. lia.
+      - destruct (IH ltac:(discriminate)) as (x & Hx & Ex).
+        replace (list_max (map height (z :: z' :: l))) with (Nat.max (height z) (list_max (map height (z' :: l)))) by reflexivity.
+        rewrite Ex.
+        destruct (Nat.le_ge_cases (height z) (height x)) as [Hle|Hge].
+        + exists x. split; [now right|]. lia.
+        + exists z. split; [now left|]. lia. }
+    destruct (G (y :: ch) ltac:(discriminate)) as (x & Hx & Ex). exists x. split; [assumption|]. now rewrite Ex.
+Qed.
+
+(* nearest common ancestor *)
+Theorem common_ancestor_spec c o a :
+  q_common_ancestor c o = Some a ->
+  In a (c_self c :: c_anc c) /\ In (rid a) (map rid (c_self o :: c_anc o)) /\
+  (* nearest: nothing closer to self on self's path is on other's path *)
+  exists l1 l2, c_self c :: c_anc c = l1 ++ a :: l2 /\
+                forall x, In x l1 -> ~ In (rid x) (map rid (c_self o :: c_anc o)).
+Proof.
+  unfold q_common_ancestor. set (oset := map rid (c_self o :: c_anc o)).
+  set (p := fun t => existsb (Nat.eqb (rid t)) oset). generalize (c_self c :: c_anc c). intros l H.
+  assert (Hp : forall t, p t = true <-> In (rid t) oset).
+  { intros t. unfold p. rewrite existsb_exists. split.
+    - intros (x & Hx & E). apply Nat.eqb_eq in E. now rewrite E.
+    - intros Hi. exists (rid t). split; [assumption|apply Nat.eqb_refl]. }
+  induction l as [|y l IH]; cbn [find] in H; [discriminate|].
+  destruct (p y) eqn:Ey.
+  - injection H as <-. split; [now left|]. split; [now apply Hp|]. exists [], l. split; [reflexivity|]. intros x [].
+  - destruct (IH H) as (Hin & Hio & l1 & l2 & E & Hn). split; [now right|]. split; [assumption|].
+    exists (y :: l1), l2. split; [cbn; now rewrite E|]. intros x [<-|Hx]; [|now apply Hn].
+    intros Hc. apply Hp in Hc. congruence.
+Qed.
+
+Theorem common_ancestor_none c o :
+  q_common_ancestor c o = None ->
+  forall x, In x (c_self c :: c_anc c) -> ~ In (rid x) (map rid (c_self o :: c_anc o)).
+Proof.
+  unfold q_common_ancestor. intros H x Hx Hin.
+  pose proof (find_none _ _ H x Hx) as Hf. cbv beta in Hf.
+  assert (Ht : existsb (Nat.eqb (rid x)) (map rid (c_self o :: c_anc o)) = true).
+  { apply existsb_exists. exists (rid x). split; [assumption|apply Nat.eqb_refl]. }
+  congruence.
+Qed.
+
+(* tree height is the height of the system root *)
+Theorem tree_height_spec f i : tree_height f = height (T 0 i f).
+Proof. reflexivity. Qed.
+
+Theorem sibling_positions_located f n c : NoDup (ids f) -> locate_f n f = Some c ->
+  exists l1 l2, c_sibs c = l1 ++ c_self c :: l2 /\
+  q_index c = Some (length l1) /\
+  q_prev c = last_error l1 /\
+  q_next c = hd_error l2 /\
+  q_first_sibling c = hd_error (l1 ++ [c_self c]) /\
+  q_last_sibling c = last_error (c_self c :: l2) /\
+  (q_is_first c = true <-> l1 = []) /\
+  (q_is_last c = true <-> l2 = []) /\
+  q_siblings c false = l1 ++ l2.
+Proof.
+  intros H Hl. destruct (locate_f_ok f n c Hl) as [Hok _].
+  destruct (ctx_ok_split f c H Hok) as (l1 & l2 & E & H1 & H2).
+  exists l1, l2. split; [exact E|]. now apply sibling_positions.
+Qed.
